@@ -63,6 +63,7 @@ type batchScn struct {
 	barrier []int      // items that block until all of them have arrived (C08 usability)
 	fast    []int      // items whose exec does not take execDur (they finish while the others are still running)
 	stagger bool       // item i takes (i+1)*execDur
+	unwrap  bool       // hand flyt the *BatchNode inside the builder instead of the builder
 	cancel  cancelSpec // cancellation injection
 	// oracle groups
 	chkPositional, chkPerItem, chkLimit, chkStop, chkCancel, chkAction, chkWait bool
@@ -410,13 +411,30 @@ func (b *BR) execute(ctx context.Context, nb *flyt.BatchNodeBuilder, store *flyt
 		})
 	}
 	b.runStart = core.VNow()
+	unwrap := sc.unwrap
+	if !unwrap && sc.runs > 1 {
+		unwrap = b.runIdx%2 == 1 // both forms on the same node object, alternating
+	} else if !unwrap && sc.bound == 0 && sc.n <= 3 {
+		// entry form is a driver choice in the cheap scenarios: the builder, or the *BatchNode inside it
+		unwrap = core.Choose(2) == 1
+	}
+	if unwrap {
+		core.Logf("entry form: bare *BatchNode")
+	}
 	if sc.inFlow {
 		wit := flyt.NewNode().WithExecFuncAny(func(context.Context, any) (any, error) {
 			b.witness = true
 			return nil, nil
 		})
-		f := flyt.NewFlow(nb).Connect(nb, flyt.DefaultAction, wit)
+		var n flyt.Node = nb
+		if unwrap {
+			n = nb.BatchNode
+		}
+		f := flyt.NewFlow(n).Connect(n, flyt.DefaultAction, wit)
 		b.err = f.Run(ctx, store)
+	} else if unwrap {
+		// the *BatchNode inside the builder is an exported field and Run dispatches on it as well
+		b.action, b.err = flyt.Run(ctx, nb.BatchNode, store)
 	} else {
 		b.action, b.err = flyt.Run(ctx, nb, store)
 	}
